@@ -518,13 +518,21 @@ def run_sample(key):
         n_exp = M if ns is None else ns
         k = dict(base, mode="real", ns=nsl, seed=seed)
         outs = []
+        # both calls get the SAME array objects (a caller's arrays, float64, rows not
+        # sorted): "reproducible for a given seed" must not depend on the first call having
+        # left its inputs alone (seed C15c sorted the caller's fractions in place)
+        Oc, Fc = O.copy(), F.copy()
         for rep in range(2):
             res["n"] += 1
             res["trans"] += 1
             try:
-                outs.append(_FN(O.copy(), F.copy(), ns, seed))
+                outs.append(_FN(Oc, Fc, ns, seed))
             except Exception as e:
                 outs.append(e)
+        # observational only (the statement does not forbid touching the inputs as such;
+        # what it does require - reproducibility, membership - is judged below)
+        if not (np.array_equal(Oc, O) and np.array_equal(Fc, F, equal_nan=True)):
+            res["notes"]["observed_inputs_modified_in_place"] = res["notes"].get("observed_inputs_modified_in_place", 0) + 1
         res["states"] += 1
         _cl(res, "noraise")
         if isinstance(outs[0], Exception) or isinstance(outs[1], Exception):
